@@ -237,7 +237,7 @@ class C11(common.Prop):
             "get_components with ordered selections, sub-lists and permutations (thorough: all of them for every component of <= 5 points), "
             "remove_components incl. absent names and the str form, get_point_index, and the helpers on OpenPose- and Holistic-shaped "
             "headers (full, reduced, reordered, with missing components); three backends; a malformed stream (absent / duplicated "
-            "selections); non-trivial = the call returned a pose; distinct by content hash")
+            "selections); non-trivial = the call returned a pose; distinct by content hash " "Two-step helper cases: legs hidden in place, then wrist correction / hiding again.")
     TRUSTED = ["Coq 8.16.1 kernel", "harness/translate_c11.py (fail-closed ast translator + constant evaluator)",
                "extraction: ExtrOcamlBasic only; runner/driver.ml", "harness/c11.py dump / canonicalisation (mask polarity, bit patterns)"]
     ASSUMPTIONS = ["component names are unique and point names are unique inside a component (DESIGN section 7: precondition of 'by name')",
